@@ -11,6 +11,8 @@ inductive Err
   | panic (site : String) | hang (site : String)
 deriving DecidableEq, Repr
 
+deriving instance DecidableEq for Except
+
 def Err.tag : Err → String
   | .invalid => "invalid" | .notFound => "notfound" | .conversion => "conversion"
   | .syntax => "syntax" | .unexpected => "unexpected" | .unmarshal => "unmarshal"
